@@ -14,11 +14,29 @@ ID = "C20"
 RULE = ("explicit-state BFS over all call histories (add/union/find/connected/component/components/"
         "component_mapping/roots/len/in; push/get/pop/front/empty) up to the depth bound, over int, tuple, "
         "string and mixed element alphabets, from the empty and from a pre-filled structure; a case is one "
-        "distinct (real-object canonical dump, model) state; non-trivial = at least one element/item present")
+        "distinct (real-object canonical dump, model) state; non-trivial = at least one element/item present. "
+        "Deviations from the default execution, each enumerated for the whole family: (i) constructor argument "
+        "forms of the union-find (tuple / one-shot generator / generator with repeats / dict keys / set / numpy "
+        "array / the caller's list edited after the call), with every container a query returns wrecked by the "
+        "caller before the next event; (ii) priority NUMBER forms of the queue (python int, bool, ints beyond "
+        "2^53 and beyond the range of a double, Fraction, Decimal, numpy scalars, mixed exact types, extreme and "
+        "signed-zero floats) with one distinguishable payload per push and every item handed out by get/pop "
+        "mutated by the caller afterwards, judged by an exact rational key; (iii) PAYLOAD forms of the queue "
+        "(strings, ints, None, mixed tuples, dict, list, set, numpy arrays, plain objects, objects whose every "
+        "comparison raises, complex, nan, a PriorityItem, a (priority, item)-shaped tuple, a class, bytes) "
+        "meeting each other under equal and unequal priorities; (iv) large / long specimens: 300, 2000 (thorough: "
+        "6000) elements / items under 7 fixed union schedules (chains both ways, stars both ways, equal-size merges, "
+        "two interleaved components, blocks of 7) x 2 element forms and 7 priority patterns x 2 push/get schedules, "
+        "every answer compared with the model at three checkpoints (all pairs up to 300 elements, neighbours / "
+        "mirror pairs / a fixed stride beyond)")
 ASSUMPTIONS = ["elements restricted to the 3-4 element alphabets listed in the tasks; priorities to {-inf,-1,0,1,inf} and, in a third queue family, to values close to each other relative to their magnitude {1e10, 1e10+1, -1e10, -1e10-1, 1, 1+2^-40, 1e-300, 2e-300}",
-               "depth bound as given in coverage.bounds; all histories below it are explored (no sampling)"]
-BOUNDS = {"quick": "union-find depth 4 (ints: 5); priority queue depth 5 with two item names, depth 7 with one item name, priorities {0,1,-1,inf,-inf}; depth 4 on the close-priority alphabet",
-          "thorough": "union-find depth 6 (ints: 7); priority queue depth 7 with two item names, depth 9 with one; depth 6 on the close-priority alphabet"}
+               "depth bound as given in coverage.bounds; all histories below it are explored (no sampling)",
+               "priority number forms: the eight alphabets of _prio_alphabets() (5-9 values each); priorities inside one alphabet are mutually comparable by python's exact mixed-type comparison (no Decimal next to Fraction, no numpy scalar next to an int beyond 64 bits); NaN is not a priority (no minimum exists)",
+               "payload forms: the 23 objects of _payload_objects(); a payload is identified by (type, stable repr), never by ==; the statement does not let the payload influence the order, so any exception out of push/get/pop/front is a violation whatever the payload",
+               "large specimens: fixed schedules, no search over histories; beyond 300 elements connected() is asked on 3n pairs (neighbours, mirror pairs, stride 97) and component() on every 61st element - a rule, not a random draw",
+               "constructor forms of the union-find: numpy arrays only for the int and string alphabets (rows of a 2-D array are not hashable), sets only for the int and tuple alphabets (iteration order independent of the hash seed)"]
+BOUNDS = {"quick": "union-find depth 4 (ints: 5); constructor forms x 4 alphabets depth 3; priority queue depth 5 with two item names, depth 7 with one item name, priorities {0,1,-1,inf,-inf}; depth 4 on the close-priority alphabet; depth 4 on each of the 8 priority-number-form alphabets; payload forms: all 23 objects at one tie priority (+2 objects at -1 / 1) depth 3, and the 23 cyclic-neighbour pairs x priorities {0,1} depth 4; large specimens n = 300 and 2000 (14 union-find + 14 queue runs each)",
+          "thorough": "union-find depth 6 (ints: 7); constructor forms depth 4; priority queue depth 7 with two item names, depth 9 with one; depth 6 on the close-priority alphabet; depth 5 on the priority-number-form alphabets; payload forms: all objects depth 4, all 253 pairs depth 5; large specimens n = 300, 2000 and 6000"}
 
 ALPHABETS = {
     "ints": [0, 1, 2, 3],
@@ -51,7 +69,88 @@ def tasks(tier):
     dm = {"quick": 4, "thorough": 6}[tier]
     for p in PRIOS_CLOSE:
         out.append({"kind": "pq", "depth": dm - 1, "prefix": [["push", "a", p]], "items": ["a"], "prios": "close"})
+    # Union-find, constructor argument forms: every iterable form x every alphabet, all histories of depth 3 / 4 after
+    # the construction; in this family every container handed back by a query is wrecked before the next event.
+    du = {"quick": 3, "thorough": 4}[tier]
+    for alpha in ALPHABETS:
+        for form in INIT_FORMS:
+            if init_form_applies(form, alpha):
+                out.append({"kind": "uf", "alphabet": alpha, "init": "form:" + form, "depth": du, "wreck_results": True})
+    # Large / long specimens (family L): element ids and heap positions far above 256, thousands of operations on
+    # one object; fixed union / push schedules (no search), every answer compared with the model at three checkpoints.
+    for n in {"quick": (300, 2000), "thorough": (300, 2000, 6000)}[tier]:
+        for pat in UF_LARGE_PATTERNS:
+            for eform in ("int_offset", "str"):
+                out.append({"kind": "large", "what": "uf", "pattern": pat, "n": n, "elements": eform})
+        for pat in PQ_LARGE_PATTERNS:
+            for sched in ("fill_then_drain", "push2_get1"):
+                out.append({"kind": "large", "what": "pq", "pattern": pat, "n": n, "schedule": sched})
+    # Priority queue, family D: priority NUMBER forms (type and magnitude of the priority values). One task per first
+    # push (a failed get on the empty queue leaves the initial state, so this split loses nothing) plus the empty prefix.
+    dd = {"quick": 4, "thorough": 5}[tier]
+    for name, vals in _prio_alphabets().items():
+        out.append({"kind": "pqf", "family": "prio", "alphabet": name, "depth": 1, "prefix": []})
+        for i in range(len(vals)):
+            out.append({"kind": "pqf", "family": "prio", "alphabet": name, "depth": dd - 1, "prefix": [["push", -1, i]]})
+    # Family E: PAYLOAD forms. E1: every object of the payload table at one tie priority (plus two objects at -1 / 1);
+    # E2: pairs of objects x priorities {0, 1}, deeper.
+    nobj = len(PAYLOAD_NAMES)
+    de = {"quick": 3, "thorough": 4}[tier]
+    out.append({"kind": "pqf", "family": "payload", "objs": "all", "depth": 1, "prefix": []})
+    for ev in _payload_all_pushes():
+        out.append({"kind": "pqf", "family": "payload", "objs": "all", "depth": de - 1, "prefix": [ev]})
+    if tier == "quick":
+        pairs = [(i, (i + 1) % nobj) for i in range(nobj)]
+    else:
+        pairs = [(i, j) for i in range(nobj) for j in range(i + 1, nobj)]
+    for (i, j) in pairs:
+        out.append({"kind": "pqf", "family": "payload", "objs": [i, j], "depth": {"quick": 4, "thorough": 5}[tier], "prefix": []})
     return out
+
+
+# Constructor argument forms of the union-find (family U2)
+INIT_FORMS = ["tuple", "generator", "generator_dup", "dict_keys", "set", "ndarray", "list_edited_after"]
+
+
+def init_form_applies(form, alpha):
+    if form == "ndarray":
+        return alpha in ("ints", "strs")       # rows of a 2-D array (tuples) are not hashable; mixed would become strings
+    if form == "set":
+        return alpha in ("ints", "tuples")     # iteration order independent of PYTHONHASHSEED
+    return True
+
+
+def _build_by_form(UnionFind, form, elements, absent):
+    """-> (union-find, elements in the order the iterable yields them, without repeats)"""
+    import numpy as np
+    if form == "tuple":
+        arg = tuple(elements)
+    elif form == "generator":
+        arg = (e for e in list(elements))
+    elif form == "generator_dup":
+        arg = (e for e in list(elements) + list(reversed(elements)))
+    elif form == "dict_keys":
+        arg = dict.fromkeys(elements, "payload").keys()
+    elif form == "set":
+        arg = set(elements)
+    elif form == "ndarray":
+        arg = np.array(elements)
+    elif form == "list_edited_after":
+        arg = list(elements)
+    else:
+        raise AssertionError(form)
+    order = []
+    if form in ("set",):
+        for e in arg:                           # the order the library will see too (same object, same process)
+            order.append(e)
+    else:
+        for e in elements:
+            if e not in order:
+                order.append(e)
+    uf = UnionFind(arg)
+    if form == "list_edited_after":             # the caller goes on using its own list
+        arg.reverse(); arg.pop(); arg.append(absent); arg.append(absent)
+    return uf, order
 
 
 def _el(x):
@@ -60,13 +159,15 @@ def _el(x):
 
 # ------------------------------------------------------------------------------------------------
 class UFState:
-    def __init__(self, UnionFind, elements, init):
+    def __init__(self, UnionFind, elements, init, absent=None):
         if init == "prefilled":
             self.uf = UnionFind(list(elements))
             self.order = list(elements)
         elif init == "prefilled_dup":       # the constructor is given an iterable with repeated elements
             self.uf = UnionFind(list(elements) + [elements[0], elements[-1]])
             self.order = list(elements)
+        elif init.startswith("form:"):      # constructor argument forms
+            self.uf, self.order = _build_by_form(UnionFind, init[5:], list(elements), absent)
         else:
             self.uf = UnionFind()
             self.order = []
@@ -130,7 +231,7 @@ def _run_uf(task, rep: Report):
     icls = f"uf:{alpha}:{task['init']}"
 
     def make():
-        return UFState(UnionFind, elements[:3], task["init"])
+        return UFState(UnionFind, elements[:3], task["init"], absent)
 
     def check_invariants(st: UFState, hist_ev):
         """Evaluate every clause of the statement on a deep copy (queries compress paths)."""
@@ -251,6 +352,9 @@ def _run_uf(task, rep: Report):
             if got != want[1]:
                 rep.violation(sub, callee, "mismatch:answer", icls, {"event": ev, "got": repr(got), "want": repr(want[1])})
             obs = ("ok", repr(got))
+            if task.get("wreck_results") and kind in ("component", "components", "component_mapping", "roots"):
+                _wreck(v)                    # the caller owns what a query hands back: later answers must not depend on it
+                rep.count("uf_results_wrecked")
         rep.outcome(kind, obs)
         return obs
 
@@ -310,6 +414,23 @@ def _run_uf(task, rep: Report):
     rep.transitions += res["transitions"]
     rep.traces += res["transitions"]        # every transition = one history replayed on fresh real objects
     rep.count("uf_states:" + alpha, res["states"])
+    if task["init"].startswith("form:"):
+        rep.flag("uf:initform:" + task["init"][5:])
+        rep.count("uf_initform_states", res["states"])
+
+
+def _wreck(v):
+    """Empty, in place, a container returned by a query and every container inside it."""
+    if isinstance(v, dict):
+        for c in list(v.values()):
+            _wreck(c)
+        v.clear()
+    elif isinstance(v, list):
+        for c in v:
+            _wreck(c)
+        v.clear()
+    elif isinstance(v, set):
+        v.clear()
 
 
 def _depths(uf):
@@ -433,10 +554,551 @@ def _run_pq(task, rep: Report):
     rep.count("pq_states", res["states"])
 
 
+# ------------------------------------------------------------------------------------------------
+# Priority queue: NUMBER forms of the priority (family D) and PAYLOAD forms (family E)
+def _prio_alphabets():
+    """name -> list of priority objects; inside one alphabet python's own mixed-type comparison is exact."""
+    import numpy as np
+    from fractions import Fraction as F
+    from decimal import Decimal as D
+    big = 2 ** 53
+    return {
+        "int": [0, 1, -1, 2, True],                                             # True == 1: a tie across types
+        "bigint": [big, big + 1, big + 2, -big - 1, -big, 2 ** 64, 2 ** 64 + 1],  # distinct ints, equal as doubles
+        "hugeint": [10 ** 400, 10 ** 400 + 1, -10 ** 400, -10 ** 400 - 1, 0, math.inf, -math.inf],   # beyond the range of a double
+        "fraction": [F(1, 3), F(1, 3) + F(1, 10 ** 20), F(-1, 3), F(0), F(big + 1), F(big)],
+        "decimal": [D("0.1"), D("0.1000000000000000000001"), D("-0.1"), D("0"), D("Infinity"), D("-Infinity")],
+        "numpy": [np.float64(0.1), np.float32(0.1), np.int64(3), np.int32(-3), np.float64(-0.0), np.uint8(200), np.float32(np.inf)],
+        "mixed": [1, 1.0, F(1), big + 1, 2.0 ** 53, F(1, 3), 1 / 3, math.inf, -math.inf],
+        "extreme_float": [5e-324, 0.0, -0.0, -5e-324, 1.7976931348623157e308, -1.7976931348623157e308, math.inf, -math.inf],
+    }
+
+
+def _xkey(p):
+    """Exact value of a priority: (-1,0) = -inf, (0, Fraction) finite, (1,0) = +inf; independent of any float rounding."""
+    import numpy as np
+    from fractions import Fraction as F
+    from decimal import Decimal as D
+    if isinstance(p, D):
+        if p.is_infinite():
+            return (1 if p > 0 else -1, F(0))
+        if p.is_nan():
+            return ("nan", repr(p))
+        return (0, F(p))
+    if isinstance(p, (bool, int, np.integer, np.bool_)):
+        return (0, F(int(p)))
+    if isinstance(p, F):
+        return (0, p)
+    if isinstance(p, (float, np.floating)):
+        f = float(p)            # float32 -> float64 is exact
+        if f != f:
+            return ("nan", "nan")
+        if f in (math.inf, -math.inf):
+            return (1 if f > 0 else -1, F(0))
+        return (0, F(f))
+    return ("?", type(p).__name__ + ":" + repr(p)[:60])
+
+
+class _Opaque:
+    """a plain object: default identity equality, no ordering"""
+    def __init__(self, tag):
+        self.tag = tag
+
+    def __repr__(self):
+        return "_Opaque(%r)" % self.tag
+
+
+class _Hostile:
+    """an object every comparison of which raises: the queue has no business comparing payloads"""
+    def __init__(self, tag):
+        self.tag = tag
+
+    def _no(self, other):
+        raise TypeError("a payload was compared")
+    __lt__ = __le__ = __gt__ = __ge__ = __eq__ = __ne__ = _no
+    __hash__ = object.__hash__
+
+    def __repr__(self):
+        return "_Hostile(%r)" % self.tag
+
+
+PAYLOAD_NAMES = ["str_a", "str_b", "int_3", "int_-1", "none", "tuple_1a", "tuple_12", "dict_1", "dict_2", "list_12", "set_1",
+                 "ndarray_12", "ndarray_21", "opaque_p", "opaque_q", "hostile_p", "hostile_q", "complex", "nan",
+                 "priority_item", "tuple_like_entry", "class_int", "bytes_a"]
+
+
+def _payload_objects(PriorityItem):
+    import numpy as np
+    objs = ["a", "b", 3, -1, None, (1, "a"), (1, 2), {"k": 1}, {"k": 2}, [1, 2], {1},
+            np.array([1, 2]), np.array([2, 1]), _Opaque("p"), _Opaque("q"), _Hostile("p"), _Hostile("q"), 1 + 2j, float("nan"),
+            PriorityItem("z", 5.0), (0.0, "x"), int, b"a"]
+    assert len(objs) == len(PAYLOAD_NAMES)
+    return objs
+
+
+def _payload_all_pushes():
+    """push events of sub-family E1: every object at the tie priority (index 0), two objects at -1 and 1"""
+    evs = [["push", j, 0] for j in range(len(PAYLOAD_NAMES))]
+    for j in (PAYLOAD_NAMES.index("str_a"), PAYLOAD_NAMES.index("hostile_p")):
+        evs += [["push", j, 1], ["push", j, 2]]
+    return evs
+
+
+def _plabel(x):
+    """identity of a payload for the oracle: (type, stable repr) - never ==, never <"""
+    import numpy as np
+    if isinstance(x, (_Opaque, _Hostile)):
+        return (type(x).__name__, x.tag)
+    if isinstance(x, np.ndarray):
+        return ("ndarray", x.dtype.str + repr(x.tolist()))
+    if isinstance(x, float) and x != x:
+        return ("float", "nan")
+    if isinstance(x, dict):
+        return ("dict", repr(sorted((repr(k), repr(v)) for k, v in x.items())))
+    if isinstance(x, (set, frozenset)):
+        return (type(x).__name__, repr(sorted(map(repr, x))))
+    if type(x).__name__ == "PriorityItem":
+        return ("PriorityItem", repr(getattr(x, "x", None)) + "/" + repr(getattr(x, "priority", None)))
+    if isinstance(x, type):
+        return ("type", x.__name__)
+    return (type(x).__name__, repr(x))
+
+
+def _unorderable(a, b):
+    try:
+        r = a < b
+        bool(r)
+        return False
+    except Exception:
+        return True
+
+
+class PQFState:
+    def __init__(self, PriorityQueue):
+        self.q = PriorityQueue()
+        self.model = []     # pending (label, exact key)
+        self.objs = []      # pending payload objects, parallel to model (coverage flags only)
+        self.n = 0          # pushes so far (serial payloads of family D)
+        self.poisoned = False
+
+
+def _run_pq_forms(task, rep: Report):
+    from mouette.utils import PriorityQueue
+    from mouette.utils.priority_queue import PriorityItem
+    fam = task["family"]
+    if fam == "prio":
+        prios = _prio_alphabets()[task["alphabet"]]
+        objs = None
+        pushes = [("push", -1, i) for i in range(len(prios))]
+        icls = "pq:prio_form:" + task["alphabet"]
+        mutate_results = True
+    else:
+        prios = [0.0, 1.0, -1.0]
+        table = _payload_objects(PriorityItem)
+        if task["objs"] == "all":
+            objs = table
+            pushes = [tuple(e) for e in _payload_all_pushes()]
+        else:
+            objs = table
+            pushes = [("push", j, pi) for j in task["objs"] for pi in (0, 1)]
+        icls = "pq:payload_form"
+        mutate_results = False
+    xkeys = [_xkey(p) for p in prios]
+    events = pushes + [("get",), ("pop",), ("front",), ("empty",)]
+    prefix = [tuple(e) for e in task.get("prefix", [])]
+
+    def describe(st):
+        return [[list(l), str(k[1]) if k[0] == 0 else k[0]] for l, k in st.model]
+
+    def make():
+        st = PQFState(PriorityQueue)
+        for e in prefix:
+            apply(st, e)
+        return st
+
+    def apply(st: PQFState, ev):
+        kind = ev[0]
+        q = st.q
+        sub, callee = "C20.pq." + kind, "PriorityQueue." + kind
+        if st.poisoned:
+            # a violation was reported earlier in this history: model and queue no longer correspond, anything
+            # observed from here on would be an echo of that report (all such states share one key: not expanded)
+            return ("poisoned",)
+        nviol = sum(rep.fp_counts.values())
+        obs = _apply(st, ev, kind, q, sub, callee)
+        if sum(rep.fp_counts.values()) != nviol:
+            st.poisoned = True
+        return obs
+
+    def _apply(st, ev, kind, q, sub, callee):
+        if kind == "push":
+            j, pi = ev[1], ev[2]
+            x = st.n if j < 0 else objs[j]
+            st.n += 1
+            o = call(q.push, x, prios[pi])
+            if not o.ok:
+                rep.violation(sub, callee, exc_kind(o), icls, {"pushed": [list(_plabel(x)), repr(prios[pi])], "pending": describe(st), "msg": o.msg})
+                obs = ("raise", o.exc)      # the item was not accepted: it is not pending
+            else:
+                st.model.append((_plabel(x), xkeys[pi])); st.objs.append(x)
+                obs = ("ok",)
+        elif kind in ("get", "pop", "front"):
+            o = call((lambda: q.front) if kind == "front" else getattr(q, kind))
+            if not st.model:
+                if o.ok:
+                    rep.violation(sub, callee, "mismatch:value_from_empty_queue", icls, {"got": repr(o.value)})
+                obs = ("raise", o.exc)
+            elif not o.ok:
+                rep.violation(sub, callee, exc_kind(o), icls, {"pending": describe(st), "msg": o.msg})
+                obs = ("raise", o.exc)
+            else:
+                oo = call(lambda: (_plabel(o.value.x), _xkey(o.value.priority)))
+                if not oo.ok:
+                    rep.violation(sub, callee, "mismatch:not_an_item", icls, {"got": repr(o.value)[:100]})
+                    obs = ("ok", "?")
+                else:
+                    item = oo.value
+                    kmin = min(k for _, k in st.model)
+                    if item not in st.model:
+                        rep.violation(sub, callee, "mismatch:not_pending", icls, {"got": [list(item[0]), str(item[1][1])], "pending": describe(st)})
+                    elif item[1] != kmin:
+                        rep.violation(sub, callee, "mismatch:not_minimum", icls, {"got": [list(item[0]), str(item[1][1])], "pending": describe(st)})
+                    if kind != "front" and item in st.model:
+                        i = st.model.index(item); del st.model[i]; del st.objs[i]
+                    if kind != "front" and mutate_results:
+                        # the caller owns what get/pop hands out
+                        if call(setattr, o.value, "priority", -math.inf).ok and call(setattr, o.value, "x", "mutated").ok:
+                            rep.count("pq_results_mutated")
+                    obs = ("ok", item)
+        else:
+            o = call(q.empty)
+            if not o.ok:
+                rep.violation(sub, callee, exc_kind(o), icls, {})
+            elif bool(o.value) != (not st.model):
+                rep.violation(sub, callee, "mismatch:empty", icls, {"got": o.value, "pending": describe(st)})
+            obs = ("ok", bool(o.value) if o.ok else None)
+        rep.outcome("pqf:" + kind, obs)
+        return obs
+
+    def invariants(st, ev):
+        q = st.q
+        rep.evaluations += 1
+        o = call(q.empty)
+        if o.ok and bool(o.value) != (not st.model):
+            rep.violation("C20.pq.invariant", "PriorityQueue.empty", "mismatch:empty", icls, {"after": ev, "pending": describe(st)})
+        qc = copy.deepcopy(q)
+        out = []
+        for _ in range(len(st.model) + 2):
+            oe = call(qc.empty)
+            if oe.ok and oe.value:
+                break
+            og = call(qc.get)
+            if not og.ok:
+                rep.violation("C20.pq.invariant", "PriorityQueue.get", exc_kind(og), icls, {"after": ev, "pending": describe(st), "msg": og.msg})
+                return
+            oo = call(lambda: (_plabel(og.value.x), _xkey(og.value.priority)))
+            out.append(oo.value if oo.ok else (("?", "?"), ("?", "?")))
+        if sorted(out, key=repr) != sorted(st.model, key=repr):
+            rep.violation("C20.pq.invariant", "PriorityQueue.get", "mismatch:drain_multiset", icls,
+                          {"after": ev, "drained": [[list(l), str(k[1])] for l, k in out], "pending": describe(st)})
+        elif any(out[i][1] > out[i + 1][1] for i in range(len(out) - 1)):
+            rep.violation("C20.pq.invariant", "PriorityQueue.get", "mismatch:drain_order", icls,
+                          {"after": ev, "drained": [[list(l), str(k[1])] for l, k in out]})
+
+    def key_of(st):
+        if st.poisoned:
+            return ("poisoned",)
+        return (canon(st.q), tuple(sorted(st.model, key=repr)))
+
+    def on_state(st, hist):
+        if st.poisoned:
+            return
+        invariants(st, [list(e) for e in hist])
+        if st.model:
+            rep.case(("pqf", fam, task.get("alphabet"), key_of(st)))
+        if len(hist) == 3:
+            rep.sample({"pq_forms": fam, "alphabet": task.get("alphabet"), "history": [list(e) for e in hist]})
+        ks = [k for _, k in st.model]
+        if fam == "prio":
+            fin = [k[1] for k in ks if k[0] == 0]
+            if len(ks) != len(set(ks)):
+                rep.flag("pqf:prio:tie")
+            if any(a != b and float(a) == float(b) for a in fin for b in fin if abs(a) < 10 ** 300 and abs(b) < 10 ** 300):
+                rep.flag("pqf:prio:distinct_values_equal_as_doubles")
+            if any(abs(a) > 10 ** 309 for a in fin):
+                rep.flag("pqf:prio:beyond_double_range")
+        else:
+            for i in range(len(ks)):
+                for j in range(i + 1, len(ks)):
+                    if st.model[i][0] != st.model[j][0] and _unorderable(st.objs[i], st.objs[j]):
+                        rep.flag("pqf:payload:unorderable_pair_pending")
+                        if ks[i] == ks[j]:
+                            rep.flag("pqf:payload:unorderable_tie")
+
+    res = bfs(make, lambda st: events, apply, key_of, task["depth"], on_state=on_state)
+    rep.states += res["states"]
+    rep.transitions += res["transitions"]
+    rep.traces += res["transitions"]
+    rep.count("pqf_states:" + fam, res["states"])
+    if fam == "prio":
+        rep.flag("pqf:prio_form:" + task["alphabet"])
+    elif task["objs"] == "all":
+        rep.flag("pqf:payload:all_objects")
+    else:
+        rep.count("pqf_payload_pairs")
+
+
+# ------------------------------------------------------------------------------------------------
+# Family L: large / long specimens
+UF_LARGE_PATTERNS = ["chain_fwd", "chain_bwd", "star_in", "star_out", "binomial", "two_interleaved", "blocks_of_7"]
+PQ_LARGE_PATTERNS = ["ascending", "descending", "all_equal", "organ_pipe", "alternating_sign", "sawtooth7", "tenths"]
+
+
+def _uf_large_schedule(pat, n):
+    """list of (i, j) index pairs: union(e_i, e_j) in this order"""
+    if pat == "chain_fwd":
+        return [(i, i + 1) for i in range(n - 1)]
+    if pat == "chain_bwd":
+        return [(i + 1, i) for i in range(n - 2, -1, -1)]
+    if pat == "star_in":
+        return [(i, 0) for i in range(1, n)]
+    if pat == "star_out":
+        return [(0, i) for i in range(1, n)]
+    if pat == "binomial":              # equal-size merges: the deepest forest weighted union can build; argument order alternates
+        out, s, r = [], 1, 0
+        while s < n:
+            for i in range(0, n - s, 2 * s):
+                out.append((i, i + s) if r % 2 else (i + s, i))
+            s *= 2; r += 1
+        return out
+    if pat == "two_interleaved":       # two components whose members alternate in the numbering
+        return [(i, i + 2) for i in range(n - 2)]
+    if pat == "blocks_of_7":           # many small components, the last one incomplete, one self-union per block
+        out = []
+        for b in range(0, n, 7):
+            out.append((b, b))
+            out += [(j, b) if j % 2 else (b, j) for j in range(b + 1, min(b + 7, n))]
+        return out
+    raise AssertionError(pat)
+
+
+def _run_large_uf(task, rep: Report):
+    from mouette.utils import UnionFind
+    n, pat = task["n"], task["pattern"]
+    elts = [1000 + 3 * i for i in range(n)] if task["elements"] == "int_offset" else ["v%d" % i for i in range(n)]
+    icls = "uf:large:n=%d" % n
+    sched = _uf_large_schedule(pat, n)
+    prefilled = UF_LARGE_PATTERNS.index(pat) % 2 == 0          # rotation: elements given to the constructor / introduced by union()
+    uf = UnionFind(list(elts)) if prefilled else UnionFind()
+    # model: block id per element + member lists, smaller list relabelled (written apart from the library: no forest)
+    block = {}
+    members = {}
+    order = []
+
+    def m_add(e):
+        if e not in block:
+            block[e] = len(order); members[block[e]] = [e]; order.append(e)
+    if prefilled:
+        for e in elts:
+            m_add(e)
+    full = n <= 300
+    marks = {len(sched) // 3, 2 * len(sched) // 3, len(sched)}
+
+    def bad(sub, callee, kind, detail):
+        rep.violation("C20.uf." + sub, "UnionFind." + callee, kind, icls, dict(detail, pattern=pat, elements=task["elements"], prefilled=prefilled))
+
+    def check(k):
+        rep.evaluations += 1
+        N = len(order)
+        nb = len(members)
+        u = copy.deepcopy(uf)
+        if u.n_elts != N or len(u) != N:
+            bad("counts", "n_elts", "mismatch:n_elts", {"unions": k, "got": u.n_elts, "want": N})
+        if u.n_comps != nb:
+            bad("counts", "n_comps", "mismatch:n_comps", {"unions": k, "got": u.n_comps, "want": nb})
+        o = call(u.roots)
+        if not o.ok:
+            bad("roots", "roots", exc_kind(o), {"unions": k, "msg": o.msg})
+        elif len(o.value) != nb:
+            bad("roots", "roots", "mismatch:n_roots", {"unions": k, "got": len(o.value), "want": nb})
+        u = copy.deepcopy(uf)
+        o = call(u.components)
+        want_part = sorted(sorted(map(repr, m)) for m in members.values())
+        if not o.ok:
+            bad("components", "components", exc_kind(o), {"unions": k, "msg": o.msg})
+        else:
+            got = sorted(sorted(repr(_norm_elt(e)) for e in c) for c in o.value)
+            if sum(len(c) for c in got) != N or got != want_part:
+                bad("components", "components", "mismatch:partition", {"unions": k, "n_listed": sum(len(c) for c in got), "n_blocks_listed": len(got)})
+        u = copy.deepcopy(uf)
+        o = call(u.component_mapping)
+        if not o.ok:
+            bad("component_mapping", "component_mapping", exc_kind(o), {"unions": k, "msg": o.msg})
+        else:
+            okm = len(o.value) == N
+            if okm:
+                for e in order:
+                    c = o.value.get(e)
+                    if c is None or len(c) != len(members[block[e]]) or set(_norm_elt(x) for x in c) != set(members[block[e]]):
+                        okm = False; break
+            if not okm:
+                bad("component_mapping", "component_mapping", "mismatch:mapping", {"unions": k, "n_keys": len(o.value)})
+        # connected / component: all pairs up to n = 300, otherwise neighbours, mirror pairs and a stride
+        u = copy.deepcopy(uf)
+        if full:
+            pairs = [(a, b) for a in range(N) for b in range(N)]
+            comp_of = range(N)
+        else:
+            pairs = [(a, a + 1) for a in range(N - 1)] + [(a, N - 1 - a) for a in range(N)] + [(a, (a * 97 + 13) % N) for a in range(N)]
+            comp_of = range(0, N, 61)
+        for a, b in pairs:
+            o = call(u.connected, order[a], order[b])
+            want = block[order[a]] == block[order[b]]
+            if not o.ok:
+                bad("connected", "connected", exc_kind(o), {"unions": k, "x": a, "y": b}); break
+            if bool(o.value) != want:
+                bad("connected", "connected", "mismatch:connected", {"unions": k, "x": a, "y": b, "got": repr(o.value)}); break
+        for a in comp_of:
+            u = copy.deepcopy(uf) if not full or a % 25 == 0 else u
+            o = call(u.component, order[a])
+            if not o.ok:
+                bad("component", "component", exc_kind(o), {"unions": k, "x": a, "msg": o.msg}); break
+            if set(_norm_elt(x) for x in o.value) != set(members[block[order[a]]]):
+                bad("component", "component", "mismatch:component", {"unions": k, "x": a, "got_size": len(o.value)}); break
+            if (order[a] in u) is not True:
+                bad("contains", "__contains__", "mismatch:contains", {"unions": k, "x": a}); break
+        o = call(u.find, "absent" if task["elements"] == "str" else -5)
+        if o.ok:
+            bad("event.find", "find", "mismatch:should_raise", {"unions": k})
+
+    for k, (i, j) in enumerate(sched, 1):
+        x, y = elts[i], elts[j]
+        o = call(uf.union, x, y)
+        m_add(x); m_add(y)
+        bx, by = block[x], block[y]
+        if bx != by:
+            if len(members[bx]) < len(members[by]):
+                bx, by = by, bx
+            for e in members[by]:
+                block[e] = bx
+            members[bx] += members.pop(by)
+        if not o.ok:
+            bad("event.union", "union", exc_kind(o), {"unions": k, "msg": o.msg})
+            return
+        if k in marks:
+            check(k)
+    rep.states += len(marks); rep.transitions += len(sched); rep.traces += 1
+    rep.case(("uf_large", pat, n, task["elements"]))
+    rep.count("uf_large_runs")
+    if len(order) > 1500:
+        rep.flag("uf:long>=1500")
+    if max(_depths(uf)) >= 5:
+        rep.flag("uf:large:forest_depth>=5")
+    if len(members) > 1 and len(order) > 256:
+        rep.flag("uf:large:several_blocks_ids>256")
+
+
+def _pq_large_priority(pat, i, n):
+    if pat == "ascending":
+        return float(i)
+    if pat == "descending":
+        return float(n - i)
+    if pat == "all_equal":
+        return 0.0
+    if pat == "organ_pipe":
+        return float(min(i, n - 1 - i))
+    if pat == "alternating_sign":
+        return float(i if i % 2 else -i)
+    if pat == "sawtooth7":
+        return i % 7                    # an int: many ties
+    if pat == "tenths":
+        return ((i * 37) % n) * 0.1     # a permutation of the multiples of 0.1 (rounded products: ordered like the integers)
+    raise AssertionError(pat)
+
+
+def _run_large_pq(task, rep: Report):
+    import bisect
+    from mouette.utils import PriorityQueue
+    n, pat, schedule = task["n"], task["pattern"], task["schedule"]
+    icls = "pq:large:n=%d" % n
+    q = PriorityQueue()
+    pend = {}          # serial -> priority
+    keys = []          # sorted list of pending priorities (bisect: no heap in the oracle)
+    handed = 0
+
+    def bad(sub, callee, kind, detail):
+        rep.violation("C20.pq." + sub, "PriorityQueue." + callee, kind, icls, dict(detail, pattern=pat, schedule=schedule))
+
+    def push(i):
+        p = _pq_large_priority(pat, i, n)
+        o = call(q.push, i, p)
+        if not o.ok:
+            bad("push", "push", exc_kind(o), {"serial": i, "msg": o.msg}); return False
+        pend[i] = p; bisect.insort(keys, p)
+        return True
+
+    def take(kind):
+        nonlocal handed
+        fr = call(lambda: q.front)
+        o = call(getattr(q, kind))
+        rep.evaluations += 1
+        if not o.ok:
+            bad(kind, kind, exc_kind(o), {"pending": len(pend), "msg": o.msg}); return False
+        oo = call(lambda: (o.value.x, o.value.priority))
+        if not oo.ok:
+            bad(kind, kind, "mismatch:not_an_item", {"got": repr(o.value)[:80]}); return False
+        x, pr = oo.value
+        if fr.ok and fr.value is not o.value and (fr.value.x, fr.value.priority) != (x, pr):
+            bad("front", "front", "mismatch:front_differs_from_next_get", {"front": repr(fr.value)[:80], "get": repr(o.value)[:80]}); return False
+        if not isinstance(x, int) or x not in pend or pend[x] != pr:
+            bad(kind, kind, "mismatch:not_pending", {"got": [repr(x), repr(pr)], "pending": len(pend)}); return False
+        if pr != keys[0]:
+            bad(kind, kind, "mismatch:not_minimum", {"got": [repr(x), repr(pr)], "minimum": repr(keys[0]), "pending": len(pend)}); return False
+        del pend[x]; keys.pop(0)
+        handed += 1
+        if bool(q.empty()) != (not pend):
+            bad("empty", "empty", "mismatch:empty", {"pending": len(pend)}); return False
+        return True
+
+    ok = True
+    if schedule == "fill_then_drain":
+        for i in range(n):
+            ok = ok and push(i)
+        t = 0
+        while ok and pend:
+            ok = take("get" if t % 2 == 0 else "pop"); t += 1
+    else:
+        t = 0
+        for i in range(0, n, 2):
+            ok = ok and push(i) and (i + 1 >= n or push(i + 1))
+            if not ok:
+                break
+            ok = take("get" if t % 2 == 0 else "pop"); t += 1
+        while ok and pend:
+            ok = take("get" if t % 2 == 0 else "pop"); t += 1
+    if ok:
+        if handed != n:
+            bad("invariant", "get", "mismatch:drain_multiset", {"handed": handed, "pushed": n})
+        o = call(q.get)
+        if o.ok:
+            bad("get", "get", "mismatch:value_from_empty_queue", {"got": repr(o.value)[:80]})
+        if not q.empty():
+            bad("empty", "empty", "mismatch:empty", {"pending": 0})
+    rep.states += 1; rep.transitions += 2 * n; rep.traces += 1
+    rep.case(("pq_large", pat, n, schedule))
+    rep.count("pq_large_runs")
+    if n >= 1500:
+        rep.flag("pq:long>=1500")
+
+
 def run_task(task, rep: Report):
     # events carry lists after the JSON round trip; normalise elements to hashables
     if task["kind"] == "uf":
         _run_uf(task, rep)
+    elif task["kind"] == "pqf":
+        _run_pq_forms(task, rep)
+    elif task["kind"] == "large":
+        (_run_large_uf if task["what"] == "uf" else _run_large_pq)(task, rep)
     else:
         _run_pq(task, rep)
 
@@ -446,7 +1108,34 @@ def finish(tier, rep: Report):
     for f in ("uf:nontrivial-block", "uf:absent-element-added", "uf:forest_depth>=3", "pq:tie", "pq:inf", "pq:close_priorities"):
         if f not in rep.flags:
             fails.append("coverage flag missing: " + f)
-    for kind in ("find", "connected", "get", "empty", "in"):
+    for kind in ("find", "connected", "get", "empty", "in", "pqf:get", "pqf:pop", "pqf:front", "pqf:empty"):
         if len(rep.outcomes.get(kind, ())) < 2:
             fails.append(f"event kind {kind} produced a single outcome")
+    # the deviation families were really run
+    for form in INIT_FORMS:
+        if "uf:initform:" + form not in rep.flags:
+            fails.append("constructor form not run: " + form)
+    if rep.counters.get("uf_results_wrecked", 0) < 100:
+        fails.append("returned containers were not wrecked")
+    for name in _prio_alphabets():
+        if "pqf:prio_form:" + name not in rep.flags:
+            fails.append("priority number form not run: " + name)
+    for f in ("pqf:prio:tie", "pqf:prio:distinct_values_equal_as_doubles", "pqf:prio:beyond_double_range",
+              "pqf:payload:all_objects", "pqf:payload:unorderable_pair_pending", "pqf:payload:unorderable_tie"):
+        if f not in rep.flags:
+            fails.append("coverage flag missing: " + f)
+    if rep.counters.get("pq_results_mutated", 0) < 100:
+        fails.append("items handed out by get/pop were not mutated")
+    nsz = {"quick": 2, "thorough": 3}[tier]
+    if rep.counters.get("uf_large_runs", 0) != nsz * len(UF_LARGE_PATTERNS) * 2:
+        fails.append("large union-find specimens run: %d" % rep.counters.get("uf_large_runs", 0))
+    if rep.counters.get("pq_large_runs", 0) != nsz * len(PQ_LARGE_PATTERNS) * 2:
+        fails.append("large queue specimens run: %d" % rep.counters.get("pq_large_runs", 0))
+    for f in ("uf:long>=1500", "uf:large:forest_depth>=5", "uf:large:several_blocks_ids>256", "pq:long>=1500"):
+        if f not in rep.flags:
+            fails.append("coverage flag missing: " + f)
+    n = len(PAYLOAD_NAMES)
+    want_pairs = n if tier == "quick" else n * (n - 1) // 2
+    if rep.counters.get("pqf_payload_pairs", 0) != want_pairs:
+        fails.append(f"payload pairs run: {rep.counters.get('pqf_payload_pairs', 0)}, expected {want_pairs}")
     return fails
